@@ -1773,48 +1773,82 @@ def _assert_discharged(ctx, fi: FuncInfo, a: ast.Assert) -> tuple[bool, str]:
     """`assert len(M) == len(G.nodes)` after `while unexplored := sorted([k for k, v in G.nodes(data=EXPLORED) if not v])`:
     the loop only exits when every node is explored, and every explored node was given an entry of M"""
     t = a.test
+    if _is_size_guard(t):
+        return False, "the assertion limits the size of the molecule"
     if not (isinstance(t, ast.Compare) and len(t.ops) == 1 and isinstance(t.ops[0], ast.Eq)):
-        return False, "not an equality of two sizes"
+        raise AnalysisError(f"R-FAILSITES: cannot decide whether `{short(a)}` in {fi.qualname} holds for every molecule (not the label-count check this rule knows)")
     sides = [norm(t.left), norm(t.comparators[0])]
     m = [s for s in sides if s.startswith("len(") and not s.endswith(".nodes)")]
     if not m:
-        return False, "not the label-count check"
+        raise AnalysisError(f"R-FAILSITES: cannot decide whether `{short(a)}` in {fi.qualname} holds for every molecule (not the label-count check this rule knows)")
     mapping = m[0][4:-1]
     fn = fi.node
     cfg = cfg_of(fn)
     explored = ctx.repo.try_const("tucan.graph_attributes", "EXPLORED")
     loops = [w for w in own_walk(fn) if isinstance(w, ast.While) and isinstance(w.test, ast.NamedExpr)]
+    if not loops:
+        raise AnalysisError(f"R-FAILSITES: `{short(a)}` in {fi.qualname}: the traversal that fills `{mapping}` is not written as the `while unexplored := ...` loop this rule reads; "
+                            "whether every node has a label at that point is neither proved nor refuted")
+    matched_form = False
+    why_not = "no loop shows that every node has received a label before this point"
     for w in loops:
         comp = w.test.value
-        while isinstance(comp, ast.Call) and isinstance(comp.func, ast.Name) and comp.func.id in ("sorted", "list") and comp.args:
+        while isinstance(comp, ast.Call) and isinstance(comp.func, ast.Name) and comp.func.id in ("sorted", "list", "tuple") and comp.args:
             comp = comp.args[0]
-        if not (isinstance(comp, ast.ListComp) and len(comp.generators) == 1 and len(comp.generators[0].ifs) == 1):
+        if not (isinstance(comp, (ast.ListComp, ast.GeneratorExp)) and len(comp.generators) == 1 and len(comp.generators[0].ifs) == 1):
             continue
         it = comp.generators[0].iter
         cond = comp.generators[0].ifs[0]
+        marks = []          # (statement node, key text)
         d = kwarg(it, "data") if isinstance(it, ast.Call) else None
-        if d is None or try_const(ctx, fi, d) != explored:
+        if d is not None and try_const(ctx, fi, d) == explored and isinstance(cond, ast.UnaryOp) and isinstance(cond.op, ast.Not):
+            # form A: nodes whose EXPLORED attribute is false
+            for s_ in ast.walk(w):
+                if isinstance(s_, ast.Assign) and isinstance(s_.targets[0], ast.Subscript) and try_const(ctx, fi, s_.targets[0].slice) == explored \
+                        and isinstance(s_.value, ast.Constant) and s_.value.value is True and isinstance(s_.targets[0].value, ast.Subscript):
+                    marks.append((s_, norm(s_.targets[0].value.slice)))
+        elif isinstance(cond, ast.Compare) and len(cond.ops) == 1 and isinstance(cond.ops[0], ast.NotIn) and isinstance(cond.comparators[0], ast.Name) \
+                and isinstance(comp.generators[0].target, ast.Name) and norm(cond.left) == comp.generators[0].target.id:
+            # form B: nodes that are not yet in a local set of explored nodes
+            sname = cond.comparators[0].id
+            for s_ in ast.walk(w):
+                if isinstance(s_, ast.Expr) and isinstance(s_.value, ast.Call) and isinstance(s_.value.func, ast.Attribute) and s_.value.func.attr == "add" \
+                        and isinstance(s_.value.func.value, ast.Name) and s_.value.func.value.id == sname and s_.value.args:
+                    marks.append((s_, norm(s_.value.args[0])))
+            # nothing else may put nodes into the set (update / |=) or take them out
+            if any(isinstance(x, ast.Call) and isinstance(x.func, ast.Attribute) and isinstance(x.func.value, ast.Name) and x.func.value.id == sname
+                   and x.func.attr in ("update", "discard", "remove", "clear", "pop") for x in own_walk(fn)):
+                continue
+        else:
             continue
-        if not (isinstance(cond, ast.UnaryOp) and isinstance(cond.op, ast.Not)):
-            continue
-        # inside the loop: a store M[x] = .. together with marking x explored, both in the same block
-        stores = [s for s in ast.walk(w) if isinstance(s, ast.Assign) and isinstance(s.targets[0], ast.Subscript) and norm(s.targets[0].value) == mapping]
-        marks = [s for s in ast.walk(w) if isinstance(s, ast.Assign) and isinstance(s.targets[0], ast.Subscript) and try_const(ctx, fi, s.targets[0].slice) == explored
-                 and isinstance(s.value, ast.Constant) and s.value.value is True]
+        matched_form = True
+        # inside the loop: every marking of a node as explored goes together with a store M[x] = .. in the same block
+        stores = [s_ for s_ in ast.walk(w) if isinstance(s_, ast.Assign) and isinstance(s_.targets[0], ast.Subscript) and norm(s_.targets[0].value) == mapping]
         if not stores or not marks:
+            why_not = "inside the traversal loop no label is stored, or no node is marked explored"
             continue
-        sn, mn = cfg.node_of(stores[0]), cfg.node_of(marks[0])
-        key_s = norm(stores[0].targets[0].slice)
-        key_m = norm(marks[0].targets[0].value.slice) if isinstance(marks[0].targets[0].value, ast.Subscript) else None
-        if sn is None or mn is None or key_s != key_m:
-            continue
-        if not (cfg.dominates(sn, mn) or cfg.dominates(mn, sn)):
+        all_paired = True
+        for mk, key_m in marks:
+            mn = cfg.node_of(mk)
+            paired = False
+            for st_ in stores:
+                sn = cfg.node_of(st_)
+                if sn is not None and mn is not None and norm(st_.targets[0].slice) == key_m and (cfg.dominates(sn, mn) or cfg.dominates(mn, sn)):
+                    paired = True
+            if not paired:
+                all_paired = False
+                why_not = f"`{short(mk)}` marks a node explored on a path that does not store its label"
+        if not all_paired:
             continue
         wn = cfg.node_of(w)
         an = cfg.node_of(a)
         if wn is not None and an is not None and cfg.dominates(wn, an):
             return True, "the traversal loop exits only when no node is unexplored, and a node is marked explored together with receiving its label"
-    return False, "no loop shows that every node has received a label before this point"
+    if not matched_form:
+        raise AnalysisError(f"R-FAILSITES: `{short(a)}` in {fi.qualname}: no loop of the form `while unexplored := <nodes not yet explored>` found; "
+                            "whether every node has a label at that point is neither proved nor refuted")
+    return False, why_not
+
 
 
 # --------------------------------------------------------------------------- R-REBUILD
